@@ -1469,6 +1469,9 @@ class ExplicitTag(StandardEncodeMixin, StandardDecodeMixin, Type):
         self.inner = inner
 
     def set_default(self, value):
+        # The inner type may be shared with other users of the same
+        # compiled type: do not modify it in place.
+        self.inner = copy(self.inner)
         self.inner.set_default(value)
 
     def get_default(self):
